@@ -188,7 +188,7 @@ def compiled_part(chk: Check, model, cv: CompiledView):
         raise AnalysisError("per-slot loop over timings_gen.items() not found in _run_generation")
     tn = T.mk_index(el, T.ONE)
     seq = T.mk_attr(tn, "seq")
-    st = [e for e in sub.events if e.kind == "store_sub" and e.name == "new_records"]
+    st = [e for e in sub.events if e.kind == "store_sub" and e.term[0] == "replace" and "steps" in dict(e.term[2])]
     if len(st) != 1:
         chk.unknown("C13.rows", "record write-back", f"expected one new_records[...] store, found {len(st)}", chk.loc(fi))
     else:
@@ -207,8 +207,8 @@ def compiled_part(chk: Check, model, cv: CompiledView):
             ok2 = noop[0] == "call" and T.call_name(noop) == "rex.jax_utils.tree_take" and len(noop[2]) == 2 and noop[2][1] == idx and mentions(noop[2][0], "steps")
             chk.add("C13.rows", "masked slot writes back the row it read", ok2, f"for a masked slot the value written is {T.show(noop)[:200]}, expected the record row read at the same index", chk.loc(fi, st[0].node))
     # buffers / step states independent of the record
-    for name in ("new_step_states", "new_outputs"):
-        for e in [x for x in sub.events if x.kind == "store_sub" and x.name.endswith(name)]:
+    for name in ("step state / output tables",):
+        for e in [x for x in sub.events if x.kind == "store_sub" and not x.name.startswith("self.") and not (x.term[0] == "replace" and "steps" in dict(x.term[2]))]:
             bad = [x for x in T.walk(e.term) if (x[0] == "sym" and ("aux" in x[1].split(".") or "record" in x[1])) or (x[0] == "call" and ".aux." in T.call_name(x))]
             bad += [x for x in T.walk(e.guard) if (x[0] == "call" and ".aux." in T.call_name(x))]
             chk.add("C13.noninterference", f"_run_generation {name}", not bad, f"{name} depends on the record: {[T.show(b)[:60] for b in bad[:3]]}", chk.loc(fi, e.node))
@@ -251,7 +251,7 @@ def compiled_part(chk: Check, model, cv: CompiledView):
         plain = T.assume(plain, c, False)
     chk.add("C13.noninterference", "update_state without record", bool(conds) and not mentions(plain, "tree_at") and mentions(plain, "replace_step_states"),
             "without a record update_state must return the plain updated graph state", chk.loc(f3))
-    upd = [e for e in sub.events if e.kind == "store_sub" and e.name in ("new_outputs", "new_step_states")]
+    upd = [e for e in sub.events if e.kind == "store_sub" and not e.name.startswith("self.") and not mentions(e.term, "tree_at")]
     for e in upd:
         bad = [x for x in T.walk(e.term) if x[0] == "sym" and x[1] in ("output_record",)] + [x for x in T.walk(e.term) if x[0] == "call" and ".aux." in T.call_name(x)]
         chk.add("C13.noninterference", f"update_state {e.name}", not bad, f"{e.name} depends on the record", chk.loc(f3, e.node))
